@@ -76,7 +76,9 @@ class ConstrainedProblem(Problem):
         return np.concatenate([orig_grad, np.zeros((num_slacks,))])
 
     def cons(self, x):
-        orig_cons = self.problem.cons(self.orig_vals(x))
+        # offsets and slacks are applied in place below,
+        # the array returned by the problem belongs to the caller
+        orig_cons = np.copy(self.problem.cons(self.orig_vals(x)))
 
         num_slacks = len(self.slack_positions)
 
